@@ -39,7 +39,7 @@ Definition site_eqb (a b : site) : bool :=
 
 Definition target_eqb (a b : target) : bool :=
   match a, b with
-  | TFn f, TFn f' | TInit f, TInit f' => Nat.eqb f f'
+  | TFn f, TFn f' | TInit f, TInit f' | TNew f, TNew f' => Nat.eqb f f'
   | TMeth o m, TMeth o' m' => Nat.eqb o o' && Nat.eqb m m'
   | _, _ => false
   end.
